@@ -10,6 +10,7 @@ All of them are pure functions of their constructor arguments: no PRNG, no wall 
 """
 
 import io
+import os
 import socket
 
 
@@ -75,6 +76,27 @@ class SimFile(io.BytesIO):
     @property
     def sim_seconds(self) -> float:
         return 0.0
+
+
+class CapFile(SimFile):
+    """
+    File-like stream that never returns more than `cap` bytes per call (a slow or chunked
+    device driver): read(n) returns min(n, cap) bytes, readline() at most cap bytes.
+    """
+
+    def __init__(self, wire: bytes, cap: int, log=None):
+        super().__init__(wire, log)
+        self.cap = max(1, int(cap))
+        self.capped_reads = 0
+
+    def read(self, size=-1):
+        if size is None or size < 0 or size > self.cap:
+            self.capped_reads += 1
+            size = self.cap
+        return super().read(size)
+
+    def readline(self, size=-1):
+        return super().readline(self.cap)
 
 
 class SimSocket(socket.socket):
@@ -149,6 +171,12 @@ class SimSocket(socket.socket):
                 if self._end == "reset":
                     self.ledger.append(("recv", self._pos, bufsize, "reset"))
                     raise ConnectionResetError("simulated reset")
+                if self._end in ("ehostunreach", "ebadf", "enotconn"):
+                    import errno  # pylint: disable=import-outside-toplevel
+
+                    code = {"ehostunreach": errno.EHOSTUNREACH, "ebadf": errno.EBADF, "enotconn": errno.ENOTCONN}[self._end]
+                    self.ledger.append(("recv", self._pos, bufsize, self._end))
+                    raise OSError(code, os.strerror(code))
                 self.ledger.append(("recv", self._pos, bufsize, "timeout"))
                 raise TimeoutError("simulated timeout (peer silent)")
         n = min(bufsize, self._visible - self._pos)
@@ -287,6 +315,8 @@ def make_transport(wire: bytes, tr: dict):
         wire = wire[:cut]
     if kind == "file":
         return SimFile(wire)
+    if kind == "capfile":
+        return CapFile(wire, tr.get("cap", 16))
     sched = dict(tr)
     if sched.get("segments") is not None:
         sched["segments"] = fit_segments(sched["segments"], len(wire))
